@@ -206,6 +206,18 @@ class P:
 
 
 # ------------------------------------------------------------------ resolution
+GLOBAL_TYPES = {}
+
+
+def register_types(f):
+    def walk(prefix, encl, msgs, enums):
+        for e in enums: GLOBAL_TYPES[prefix + e["name"]] = ("enum", e, encl, f)
+        for m in msgs:
+            GLOBAL_TYPES[prefix + m["name"]] = ("message", m, encl, f)
+            walk(prefix + m["name"] + ".", encl + [m], m["messages"], m["enums"])
+    walk((f["package"] + ".") if f["package"] else "", [], f["messages"], f["enums"])
+
+
 class Module:
     def __init__(self, fname, f):
         self.fname, self.f = fname, f
@@ -214,14 +226,8 @@ class Module:
             raise TranslateError(f"{fname}: no (yara.module_options) with name and root_message")
         self.name, self.root_full = mo["name"], mo["root_message"]
         self.pkg = f["package"]
-        # full name -> ("message"|"enum", decl, enclosing message decls)
-        self.types = {}
-        def walk(prefix, encl, msgs, enums):
-            for e in enums: self.types[prefix + e["name"]] = ("enum", e, encl)
-            for m in msgs:
-                self.types[prefix + m["name"]] = ("message", m, encl)
-                walk(prefix + m["name"] + ".", encl + [m], m["messages"], m["enums"])
-        walk((self.pkg + ".") if self.pkg else "", [], f["messages"], f["enums"])
+        # full name -> ("message"|"enum", decl, enclosing message decls, file): all files (imports)
+        self.types = GLOBAL_TYPES
         if self.root_full not in self.types or self.types[self.root_full][0] != "message":
             raise TranslateError(f"{fname}: root message {self.root_full} not found")
         self.names = []      # id = position
@@ -246,10 +252,10 @@ class Module:
         return fo.get("name", fd["name"]) if isinstance(fo, dict) else fd["name"]
 
     def msg_ty(self, full, stack):
-        kind, m, _ = self.types[full]
+        kind, m, _, mf = self.types[full]
         if full in stack:
             raise TranslateError(f"{self.fname}: recursive protobuf type {full}")
-        syn = "Proto3" if self.f["syntax"] == "proto3" else "Proto2"
+        syn = "Proto3" if mf["syntax"] == "proto3" else "Proto2"
         fds, seen_num, seen_name = [], set(), set()
         for fd in m["fields"]:
             fo = fd["options"].get("yara.field_options", {})
@@ -285,7 +291,7 @@ class Module:
     def enum_extras(self):
         order = []
         def visit_msg(full, stack):
-            kind, m, _ = self.types[full]
+            kind, m, _, _f = self.types[full]
             for e in m["enums"]: add(full + "." + e["name"])
             for fd in m["fields"]:
                 fo = fd["options"].get("yara.field_options", {})
@@ -301,7 +307,7 @@ class Module:
         for e in self.f["enums"]: add(((self.pkg + ".") if self.pkg else "") + e["name"])
         out = []
         for full in order:
-            kind, e, encl = self.types[full]
+            kind, e, encl, _f = self.types[full]
             inline = bool(self.opt(e, "yara.enum_options", "inline", False))
             path = [] if inline else [self.opt(e, "yara.enum_options", "name", e["name"])]
             for m in reversed(encl):
@@ -316,8 +322,8 @@ class Module:
 
     def enum_items(self):
         items = []
-        for full, (kind, e, encl) in self.types.items():
-            if kind != "enum": continue
+        for full, (kind, e, encl, ef) in self.types.items():
+            if kind != "enum" or ef is not self.f: continue
             for (n, v, o) in e["values"]:
                 ov = o.get("yara.enum_value", {})
                 if isinstance(ov, dict) and "i64" in ov: v = ov["i64"]
@@ -330,7 +336,8 @@ def parse_all():
     files = sorted(glob.glob(os.path.join(d, "*.proto")))
     if len(files) < 10:
         raise TranslateError(f"only {len(files)} .proto files found in lib/src/modules/protos")
-    mods = []
+    mods, parsed = [], []
+    GLOBAL_TYPES.clear()
     for p in files:
         base = os.path.basename(p)
         if base in ("yara.proto", "mods.proto"): continue
@@ -338,6 +345,9 @@ def parse_all():
         f = P(tokenize(text, base), base).file()
         if "yara.module_options" not in f["options"]:
             raise TranslateError(f"{base}: not a module definition (no yara.module_options)")
+        register_types(f)
+        parsed.append((base, f))
+    for base, f in parsed:
         mods.append(Module(base, f))
     return mods
 
